@@ -41,13 +41,13 @@ CLAIMED = {
         'each emitted name is the lower-cased rest of the words, or the namespace-stripped identifier when nothing is '
         'shared (C13_prefix_whole_words, C13_names_shared, C13_rest_of_words, C13_names_unshared); for every input the '
         'public members appear in declaration order with exact values and identifiers (C13_order_and_values); constants '
-        'of guint8/16/32/64 lie in [0,2^w) and are congruent to the declared value, others are as written, for all '
+        'of guint8/16/32/64, guint, gushort and gunichar lie in [0,2^w) and are congruent to the declared value, others are as written, for all '
         'integers, with the modulus table regenerated from _create_const on every run (C13_const_*). Tie: translator '
         '(wrap table) + correspondence of member lists and constant values through Transformer.parse and GIRWriter; '
         'the executable property is judged on the real outputs. Two defects found and fixed (see known-findings.json).',
    note='Trusted: Coq kernel+VM; translate/gen_c13.py (Python-ast walk of _create_const); the stub lexer (const_int, '
         'is_bitfield, private are inputs); ASCII identifiers; single namespace without includes for the namespace-prefix '
-        'case; platform-width unsigned types (guint, gulong, gsize) are emitted as written and not range-checked.',
+        'case. Known finding C13-K1: gulong, gsize and guintptr (platform-dependent width) are emitted as written, also when negative.',
    ref='DESIGN.md §4 C13'),
  'C08': dict(
    technique='Coq proof that the giroffsets.c layout algorithm (GI_ALIGN translated from source) is the least-offset C ABI + 3-way correspondence model / real g-ir-compiler / gcc',
